@@ -649,7 +649,7 @@ def run_case(case, ctx):
                 raise Boom("harness")
             if state["step"] > case["steps"]:
                 break
-            ev = str(rng.choice(["READ", "READ", "WRITE", "CREATE", "SCALARS", "APPLY", "PROTECT", "ENTER", "ENTER", "PROPAGATE", "MODCTX", "AT", "COPY", "COPY"]))
+            ev = str(rng.choice(["READ", "READ", "WRITE", "CREATE", "SCALARS", "APPLY", "PROTECT", "ENTER", "ENTER", "PROPAGATE", "MODCTX", "AT", "COPY", "COPY", "REINIT"]))
             i = int(rng.integers(0, len(objs)))
             o = objs[i]
             if ev == "READ":
@@ -667,6 +667,21 @@ def run_case(case, ctx):
                         new = numpy.stack([new[0], cur[1]], axis=0)
                     else:
                         o.obj.data = new.copy()
+                o.ref = tr_any(new, dag(Stot), o.kind)
+                check_read(o, Stot, level)
+            elif ev == "REINIT" and o.kind == "Evolution" and o.protected_S is None:
+                # an evolution object is given a new initial condition (as a program that re-uses it for a second run does), whether or
+                # not it has been looked at in this context before
+                events.append("REINIT")
+                a_ = rng.normal(size=(n, n)) + 1j * rng.normal(size=(n, n))
+                r_ = a_ @ a_.conj().T
+                r_ = r_ / numpy.trace(r_).real
+                if rng.random() < 0.5:
+                    check_read(o, Stot, level)
+                with ctx.lib("set_initial_condition on an existing evolution", mechanism=None, expect=Boom):
+                    o.obj.set_initial_condition(qr.ReducedDensityMatrix(data=r_.copy()))
+                new = numpy.zeros_like(numpy.asarray(expected(o, Stot), dtype=complex))
+                new[0] = r_
                 o.ref = tr_any(new, dag(Stot), o.kind)
                 check_read(o, Stot, level)
             elif ev == "CREATE":
